@@ -44,3 +44,39 @@ Check (VF.Properties.C13.C13_full_stack_all_messages : forall ms (m : msg) (mav 
 Check (VF.Properties.C13.C13_full_stack_all_messages_exact : forall (m : msg) (mav : bool) (d : dev) (us : list sop),
   wf_msg m = true -> queue_printable d = true -> message_ops m = Some us ->
   (dev_message d mav (render_msg m) = Val (op_message d mav us) <-> stray_separator m = false)).
+From VF Require Import Gen_Esr ErrTable Lexer Tree Tree_invariant Contrib_anybytes.
+
+
+Check (VF.Properties.C13.C13_dev_message_any_bytes : forall d mav bytes d' out r,
+  dev_message d mav bytes = Val (d', out, r) ->
+  exists dh, quiet_step d dh /\
+    match r with
+    | None => d' = dh
+    | Some e => d' = push_error dh e
+    end).
+Check (VF.Properties.C13.C13_any_failed_message_queues_its_error_last : forall d mav bytes d' out e,
+  dev_message d mav bytes = Val (d', out, Some e) ->
+  exists q, queue d' = q ++ [e] /\ (forall x, In x q -> In x (queue d) \/ x = std_error OperationComplete)
+  /\ N.land (esr d') (error_esr_mask e) = error_esr_mask e
+  /\ (forall i, N.testbit err_bits i = true -> N.testbit (esr d') i = true ->
+        N.testbit (esr d) i = true \/ N.testbit (error_esr_mask e) i = true)).
+Check (VF.Properties.C13.C13_any_failed_message_exact : forall d mav bytes d' out e,
+  dev_message d mav bytes = Val (d', out, Some e) ->
+  exists n k dh,
+    queue d' = skipn n (queue d) ++ repeat (std_error OperationComplete) k ++ [e]
+    /\ esr d' = N.lor (esr dh) (error_esr_mask e)
+    /\ (forall i, N.testbit (esr dh) i = true -> N.testbit (esr d) i = true \/ i = 0)
+    /\ tst_result d' = tst_result d
+    /\ ese d' = ese dh /\ sre d' = sre dh /\ oper d' = oper dh /\ ques d' = ques dh).
+Check (VF.Properties.C13.C13_any_successful_message_queues_no_error : forall d mav bytes d' out,
+  dev_message d mav bytes = Val (d', out, None) ->
+  (forall x, In x (queue d') -> In x (queue d) \/ x = std_error OperationComplete)
+  /\ (forall i, N.testbit err_bits i = true -> N.testbit (esr d') i = true -> N.testbit (esr d) i = true)).
+Check (VF.Properties.C13.C13_any_successful_message_exact : forall d mav bytes d' out,
+  dev_message d mav bytes = Val (d', out, None) ->
+  (exists n k, queue d' = skipn n (queue d) ++ repeat (std_error OperationComplete) k)
+  /\ (forall i, N.testbit (esr d') i = true -> N.testbit (esr d) i = true \/ i = 0)
+  /\ tst_result d' = tst_result d).
+Check (VF.Properties.C13.C13_dev_message_total : forall d mav bytes, exists r, dev_message d mav bytes = Val r).
+Check (VF.Properties.C13.C13_queue_evolves_shape : forall q q',
+  queue_evolves q q' <-> exists n k, q' = skipn n q ++ repeat opc_event k).
